@@ -71,8 +71,13 @@ var c09Members = []string{
 	"enum Op {\n    ADD(\"+\") {\n        int apply(int a, int b) {\n            return a + b;\n        }\n    };\n    private final String s;\n    Op(String s) {\n        this.s = s;\n    }\n    abstract int apply(int a, int b);\n}",
 	"interface Callback {\n    void done(int code);\n    default void fail() {\n    }\n    static Callback noop() {\n        return c -> {};\n    }\n}",
 	"@interface Marker {\n    String value() default \"\";\n    int[] nums() default {1, 2};\n}",
-	"record Point(int x, int y) {\n    Point {\n        if (x < 0) throw new IllegalArgumentException();\n    }\n    static int origin = 0;\n}",
+	"record Point(int x, int y) {\n    static int origin = 0;\n    int sum() {\n        return x + y;\n    }\n}",
 	";",
+	"java.lang.@Deprecated int altAnnotated1;",
+	"public java.lang.@Deprecated String altAnnotated2;",
+	"java.util.@Deprecated List<java.lang.@Deprecated String> altAnnotated3;",
+	"void lambdaVar() {\n    java.util.function.BiFunction<Integer, Integer, Integer> f2 = (var p, var q) -> p + q;\n}",
+	"Object pattern(Object o) {\n    return switch (o) {\n        case String s && s.length() > 1 -> s;\n        default -> o;\n    };\n}",
 	"int ünïcode = 1;",
 	"String 名前 = \"値\";",
 	"// TODO member level",
@@ -236,7 +241,7 @@ func c09Gen(c *engine.C) engine.Case {
 		w(imports)
 		w(typeAnn)
 		w("public record Unit" + typeParams + "(int x, @Deprecated String name, java.util.List<String> rest) implements Runnable {")
-		w("    static int count;\n    public Unit {\n        count++;\n    }\n    Unit(int x) {\n        this(x, null);\n    }\n    public void run() {\n    }\n    record Nested(Unit u) {\n    }")
+		w("    static int count;\n    Unit(int x) {\n        this(x, null);\n    }\n    public void run() {\n    }\n    record Nested(Unit u) {\n    }")
 		w("}")
 	case "empty-file":
 		// nothing but the header
@@ -485,7 +490,7 @@ func init() {
 	engine.Register(&engine.Spec{
 		ID:    "C09",
 		Title: "Every pass completes without crashing on any valid Java source",
-		Rule: "X1 over a wide generator that follows the alternatives of the shipped JavaParser.g4: 13 unit kinds (class, abstract/final class, enum with constant bodies, interface with default/static/private methods, @interface, record with compact constructor, empty file, comments only, package-info, module, several types, interface then class) x 4 package forms x 4 import forms x 16 type-annotation forms x 5 type-parameter forms x 6 supertype forms x 0..3 members from 57 member forms x 0..3 statements from 52 statement/expression forms x 6 header comments; deviation-bounded; " +
+		Rule: "X1 over a wide generator that follows the alternatives of the shipped JavaParser.g4: 13 unit kinds (class, abstract/final class, enum with constant bodies, interface with default/static/private methods, @interface, record, empty file, comments only, package-info, module, several types, interface then class) x 4 package forms x 4 import forms x 16 type-annotation forms x 5 type-parameter forms x 6 supertype forms x 0..3 members from 57 member forms x 0..3 statements from 52 statement/expression forms x 6 header comments; deviation-bounded; " +
 			"plus every .java fixture of the repository under 8 layout/comment rewrites (all single rewrites quick, all pairs thorough). Each unit runs through six passes, each behind its own recover, and through a two-file project. Units are validated against coca's own grammar first. Every case is non-trivial.",
 		Assumptions: []string{
 			"validity = 0 syntax errors from the Java grammar coca ships; invalid units are skipped and counted",
